@@ -406,6 +406,30 @@ def run(rep, tier):
     rep.ob("R01.7", "repair-window", chk and {"max_document_id", "durable_alloc_watermark"} <= fields,
            "the repair scan window is derived from the storage checkpoint, max_document_id and the durable allocation watermark", g.file + ":%d" % g.line)
 
+    # a probe of the scan that fails with a storage-level error must fail the open (retrying the open is the right answer, as in
+    # replay_mutation_intents): skipping the id lets the flush that ends the open move the checkpoint past a document that no later
+    # open probes again.  Only "absent" (NotFound) and "present but undecodable" (Serialization) may continue the scan.
+    probes = [e for e in g.calls_named(r"^anda_db::storage::Storage::(fetch|get)$")]
+    heads = {e.block for e in g.calls_named(r"Iterator>?::next$")}
+    rets = set(g.return_blocks())
+    swallow = []
+    for pr in probes:
+        src = pr.poll_dest.l if pr.poll_dest is not None else pr.dest.l
+        for (sb, place, adt, m, els) in g.variant_edges():
+            if adt != "anda_db::error::DBError" or not g.can_reach([pr.block], [sb]):
+                continue
+            allowed = {t for v, t in m.items() if v in ("NotFound", "Serialization") and t != els}
+            others = {t for v, t in m.items() if t not in allowed}
+            for t in others:
+                # can this edge come back to the loop head without returning?
+                r = g.reachable_from([t], avoid=rets)
+                if r & heads:
+                    swallow.append(t)
+    rep.ob("R01.7", "repair-scan-propagates-storage-errors|auto_repair_indexes", bool(probes) and bool(heads) and not swallow,
+           "the repair scan logs and skips a probe that failed with an error other than NotFound / Serialization (a transient read failure) and raises "
+           "max_document_id past the id: the flush that ends the open stores the checkpoint above a successfully added document, and no later open finds it",
+           (g.file + ":%d" % g.term(swallow[0]).get("ln", g.line)) if swallow else g.file + ":%d" % g.line)
+
     # the window includes its upper end: max_document_id is itself an issued id and an add whose id equals the durable
     # watermark writes its document without publishing a new watermark, so a document can exist at exactly scan_max
     mx = g.calls_named(r"^core::cmp::Ord::max$")
@@ -449,6 +473,37 @@ def run(rep, tier):
             tol = (outer, op) in TOLERATED
             rep.ob("R01.9", "result-used|%s|%s" % (outer, op), used or tol,
                    "the Result of %s is discarded in %s (not a tolerated best-effort site)" % (e.name, outer), e.where())
+    # creation: the name is registered in memory before the collection and the database metadata are persisted.  If that
+    # persistence fails the registration must be taken back - or the open path a retry takes must persist the database metadata -
+    # otherwise the retry opens a collection db_meta.cbor does not list, acknowledges flushes into it, and no restart finds it.
+    DB = "anda_db::database::AndaDB"
+    rc = prog.fn(DB + "::register_created_collection")
+    rep.saw(rc, len(rc.events))
+    reg = [e for e in rc.calls() if re.search(r"::insert$", e.name or "") and "collections" in anda.recv_fields(rc, e)]
+    pers = rc.calls_named(r"Collection::flush$", r"AndaDB::flush_metadata$")
+    unreg = [e for e in rc.calls() if re.search(r"::(remove|shift_remove|swap_remove|retain)$", e.name or "") and "collections" in anda.recv_fields(rc, e)]
+    undone = bool(pers)
+    for pe in pers:
+        oks, errs = rc.result_edges(pe)
+        for t in errs:
+            if not any(u.block in rc.reachable_from([t]) for u in unreg):
+                undone = False
+    oc = prog.fn(DB + "::open_collection_with_schema", body=False)
+    fm = {f_.id for f_ in prog.fns.values() if f_.path == DB + "::flush_metadata"}
+    reopens_persist = bool(prog.reach_set([oc.id]) & fm)
+    if not reg or len(pers) < 2:
+        raise CheckerFault("anchor missing: register_created_collection registry insert (%d) / persistence steps (%d)" % (len(reg), len(pers)))
+    rep.ob("R01.7", "failed-creation-leaves-no-registration|register_created_collection", undone or reopens_persist,
+           "the collection is registered in memory before collection.flush / flush_metadata, their error returns without taking the registration back, and "
+           "open_collection_with_schema never persists the database metadata: after a failed first flush a retry opens the collection, flushes into it are "
+           "acknowledged, and after a restart db_meta.cbor does not list it (the only remedy, delete_collection, destroys the acknowledged documents)",
+           pers[0].where())
+
+    # the object-store wrappers under the collection: a lost acknowledgement of a commit must not leave the process unable to reopen
+    from . import ostore as _os
+    rep.rule("R01.10", "an error of a sidecar commit point leaves no stale cache entry behind (shared with C07 R07.7): with one the collection whose commit "
+             "was applied-but-reported-failed cannot be reopened or written in the process", floor=2)
+    _os.commit_error_forgets_cache_rules(rep, "R01.10", _os.load())
     return rep.finish(EXPLAIN)
 
 
